@@ -1621,7 +1621,7 @@ package jsonpath
 // parameter path is checked on its real body: the path linked so far becomes the parameter, its value-group flag is
 // recomputed from it and accessor mode is switched off along it (C14, C12).
 //@ func (*jsonPathParser).setNodeChain
-//@   props C02 C19 C12 C14
+//@   props C02 C19 C12 C14 C08 C01
 //@   parsetime
 //@   trusted
 //@   requires p != nil
@@ -1630,6 +1630,12 @@ package jsonpath
 // C14 / C08: the steps are linked in the order written - after each round `last` is the step just handled (an aggregate
 // becomes the head of the chain AND the node the next step is appended to)
 //@   loop 1 step follows: last == rangeslice1[rangeindex1]
+// C08 / C01: the next step is appended to the chain of the step before it, and handed to every inner identifier and to the
+// union twin of a multi-name selector at the tail of that chain (they evaluate in its place)
+//@   before setNext#1 assert appended: recv == last && arg0 == nextNode
+//@   loop 3 exit allinner: sameSlice(rangeslice3, multiIdentifier.identifiers) && rangeindex3 + 1 == len(rangeslice3)
+//@   before setNext#2 assert inner: arg0 == nextNode && recv == singleIdentifier
+//@   before setNext#3 assert twin: arg0 == multiIdentifier.unionQualifier.syntaxBasicNode && arg1 == nextNode
 //@   ensures linked: wf(p.params) && (old(len(p.params)) >= 1 ==> len(p.params) == 1 && nodeWF(elemAt(p.params, off(p.params))))
 //@   requires wf(p.params) && (forall k {elemAt(p.params, k)} :: off(p.params) <= k && k < off(p.params) + len(p.params) ==> nodeOK(elemAt(p.params, k)) && 0 <= chainLen(elemAt(p.params, k)) && chainWalk(elemAt(p.params, k)))
 
